@@ -18,8 +18,9 @@ Open Scope Z_scope.
 
 (* ---- stack cells ---------------------------------------------------------------- *)
 
-(* CVal: scalars, strings and opaque objects; CPack et items: a slice value with
-   element type et (what NewSlice(et, items) builds); CFn h: a function value. *)
+(* CVal: scalars, strings, opaque objects and nil values of the nillable types (a nil slice is
+   CVal (mkValue slicetype 0 PNone)); CPack et items: a non-nil slice value with element type et
+   (what NewSlice(et, items) builds); CFn h: a function value. *)
 Inductive cell :=
 | CVal (v : value)
 | CPack (et : Z) (items : list cell)
@@ -165,6 +166,13 @@ Definition callReady (st : list cell) (ft : funcT) (xArgs xRets : Z) : cres (lis
   else if xRets <? fRets then slice_to (top + xRets) st'
   else Good st'.
 
+(* vm.go call: the value handed to the variadic parameter.  nVarArgs == 0: the NIL slice of the
+   declared variadic type, Value{t: ft.VariadicType} (a value without object part: data gives no
+   items, nothing is allocated); otherwise NewSlice(ft.VariadicType.value(), varArgs) *)
+Definition nil_slice (vtype : Z) : cell := CVal (mkValue vtype (Zn 0) PNone).
+Definition variadic_cell (vtype nVarArgs : Z) (varArgs : list cell) : cell :=
+  if nVarArgs =? 0 then nil_slice vtype else pack (Type_value vtype) varArgs.
+
 Definition call (st : list cell) (ft : funcT) (xArgs xRets : Z) : cres (list cell) :=
   if negb (Variadic ft) then callReady st ft xArgs xRets else
   let nVarArgs := xArgs - Args ft + 1 in
@@ -172,7 +180,7 @@ Definition call (st : list cell) (ft : funcT) (xArgs xRets : Z) : cres (list cel
   let e := slen st - nVarArgs in
   if e <? 0 then Fail (ERuntime 1) else                           (* v.stack[end:] *)
   let varArgs := skipn (Z.to_nat e) st in
-  let st1 := firstn (Z.to_nat e) st ++ [pack (Type_value (VariadicType ft)) varArgs] in
+  let st1 := firstn (Z.to_nat e) st ++ [variadic_cell (VariadicType ft) nVarArgs varArgs] in
   callReady st1 ft (xArgs - nVarArgs + 1) xRets.
 
 Section Heap.
